@@ -83,6 +83,18 @@ func checkSpec(ctx *Ctx, id string) {
 				extra = append(extra, g(r))
 			}
 		}
+		// maven (C12 claims numbers of any length since fix 94889ac): one prefix, its last number
+		// taken from both sides of 2^63, 2^64, 10^19 and 10^20, plain and zero-padded (a padded text
+		// that is longer while its value is smaller), so that long numbers meet at the same position
+		if name == "maven" {
+			longs := []string{"9223372036854775807", "9223372036854775808", "18446744073709551615", "18446744073709551616", "010000000000000000000",
+				"10000000000000000000", "99999999999999999999", "100000000000000000000", "0018446744073709551616", "00000000000000000000018446744073709551617"}
+			for _, pre := range []string{"", "1.", r.Pick([]string{"2.0.", "0.", "1.0.0."})} {
+				for _, l := range longs {
+					extra = append(extra, pre+l)
+				}
+			}
+		}
 		// families: the same numeric base under every marker spelling of the ecosystem (so that
 		// alias spellings such as pypi c/rc, maven a/alpha, cr/rc meet each other in the pool)
 		if sh := numShapes[name]; sh != nil {
